@@ -32,10 +32,10 @@ type c11Stream struct {
 type c11Scenario struct {
 	Container string      `json:"container"`
 	Total     int         `json:"total"`
-	Type      string      `json:"type"`      // "" | VOD | EVENT
-	URIStyle  string      `json:"uri_style"` // rel | subdir | up | abs | query
-	Range     string      `json:"range"`     // none | explicit | nostart | continued | mixed
-	PLQuery   bool        `json:"pl_query,omitempty"` // playlist URLs carry a query string (token)
+	Type      string      `json:"type"`                 // "" | VOD | EVENT
+	URIStyle  string      `json:"uri_style"`            // rel | subdir | up | abs | query
+	Range     string      `json:"range"`                // none | explicit | nostart | continued | mixed
+	PLQuery   bool        `json:"pl_query,omitempty"`   // playlist URLs carry a query string (token)
 	RangeMask int         `json:"range_mask,omitempty"` // mixed: bit (segment index % 16) set = that sub-range is written without offset
 	MSNBase   int         `json:"msn_base"`
 	Multi     bool        `json:"multi"`
@@ -525,7 +525,7 @@ func execC11(sc c11Scenario) core.Outcome {
 }
 
 var propC11 = core.Prop[c11Scenario]{
-	ID: "C11",
+	ID: "C11", CrashLog: true,
 	Rule: "scripted playlist histories: per stream a list of snapshots served at successive polls (window 1-10, media sequence advancing by 0-6 per poll, ENDLIST at any poll, VOD / EVENT / untyped, media-sequence bases up to 2^31), URIs relative / sub-directory / parent directory / absolute on another host / with query, byte ranges explicit or without start, 0-2 rendition playlists with independent histories, Low-Latency histories with and without CAN-SKIP-UNTIL ending when the hint disappears; segments of one 10 ms sample; " +
 		"oracle: the ordered request log of every stream (resolved URL, Range header) equals the ClientSelectModel's prediction, and Wait() yields ErrClientEOS exactly when the model ends all streams; non-trivial = the window moved at least twice before termination",
 	Draw: drawC11,
